@@ -383,10 +383,86 @@ def gen_large_case(rng, name, tier, j=0):
     return rec
 
 
+# ---- quantifier "for all ... CONFIGURATIONS ... with and without running windows" / "in every window mode" — and every CALL
+# FORM of a well-formed call: the time arguments of `apply_location` / `apply` are OPTIONAL.  All cases above hand three
+# explicit date arrays to `apply_location` (and the `apply` cases are window-free, where dates are not read at all), so the
+# branch "running windows / year windows WITHOUT time information" — the library then infers the dates, documented as
+# "assuming the first value in obs, cm_hist and cm_future always corresponds to a January 1st" — never ran.  The timeless cases
+# omit time arrays (all three, or those of one role) in day-of-year-window and year-window mode, through `apply_location`
+# and through the public `apply` (one-cell grid, time arrays as keyword arguments), on series whose length is NOT a whole
+# number of years (400 ... 1400 days: where each inferred calendar starts and ends matters) and, when dates are given, on
+# records that start on any day of the year.
+# Guards (nothing beyond DESIGN 4, C03): the two series the statement equates value for value (obs / cm_hist; for DeltaChange
+# cm_hist / cm_future) carry the SAME time information — both omitted or both given with the same dates (assumption "cm_hist
+# has the dates of obs"); a given array is never paired with an omitted one inside that pair, so nothing depends on WHICH
+# January 1st the library picks; every calibration window is non-empty (>= 400 consecutive days cover every day of the year).
+TIMELESS_CONFIGS = ["DC-additive", "DC-multiplicative", "LS-additive", "LS-multiplicative", "QM-parametric-additive", "ECDFM",
+                    "QDM-absolute", "QDM-relative", "CDFt-additive", "CDFt-multiplicative", "CDFt-SSR", "DC-multiplicative-flux"]
+# (time_obs, time_cm_hist, time_cm_future) omitted?  DeltaChange: the model pair (cm_hist, cm_future) goes together;
+# the others: the calibration pair (obs, cm_hist)
+OMIT_DC = [[True, True, True], [False, True, True], [True, True, True], [True, False, False]]
+OMIT_RW = [[True, True, True], [True, True, False], [True, True, True], [False, False, True]]
+
+
+def gen_timeless_case(rng, name, tier, j=0):
+    """a recipe whose call omits time information in a window mode (see the comment above); same schema as `gen_case`
+    plus `omit`, `via`, day counts `nO` / `nF` and start offsets `offO` / `offF` (days after 1 January) of GIVEN axes"""
+    dc = name.startswith("DC-")
+    omit = list((OMIT_DC if dc else OMIT_RW)[j % 4])
+    heavy = name in ITER_FIT or name in CENSORED_PR or name == "QDM-relative"  # an optimiser fit (or two) per window
+    ymode = None
+    if name in HAS_YEARS and rng.random() < 0.5:
+        ymode = rng.choice([[17, 9], [5, 3], [3, 1], [1, 1]])
+    windowed = not (ymode is not None and rng.random() < 0.4)  # window-free only with year windows (their own inference site)
+    mode = None
+    if windowed:
+        steps = [31, 61] if heavy else ([7, 15, 31, 61] if name.startswith(("CDFt", "QDM", "QM", "ECDFM")) else [1, 7, 15, 31, 61])
+        S = rng.choice(steps)
+        mode = [max(S, rng.choice([31, 61, 91])), S]
+    nO, nF = rng.randint(400, 1400), rng.randint(400, 1400)
+    # the series of the calendar `dO` is obs; the one of `dF` is cm_future (DeltaChange: the unchanged model)
+    inferO, inferF = omit[0], omit[2]
+    rec = dict(config=name, mode=mode, ymode=ymode, nyO=nO // 365 + 1, nyF=nF // 365 + 1, nO=nO, nF=nF,
+               y0=1950 if inferO else rng.randint(1951, 2000), yF=1950 if inferF else rng.randint(2001, 2080),
+               offO=0 if inferO else rng.randint(0, 364), offF=0 if inferF else rng.randint(0, 364),
+               np_seed=rng.randint(0, 2**31 - 1), short=False, sd_ratio=rng.choice([0.5, 1.0, 2.0]), shift=rng.choice([-6.0, -1.0, 2.0, 10.0]),
+               trend=rng.choice([0.0, 0.5]), timeless=True, omit=omit, via=rng.choice(["apply_location", "apply"]),
+               kinds=[probes.pick_kind(rng) for _ in range(3)])
+    if name.endswith("-flux"):
+        rec["flux"] = FLUX[j % len(FLUX)]
+    if name in CENSORED_PR:
+        rec["censor_thr"] = rng.choice([0.125, 0.5, 1.0])
+        rec["at_threshold"] = rng.choice([0, 1, 3])
+    if name in ("ECDFM", "QDM-absolute") or name.startswith("QM-parametric"):
+        rec["t"] = [1e-3, 1e-6, 1e-10, 1e-2][j % 4]
+    if name == "QDM-relative":
+        rec["censor"] = j % 2 == 0
+        rec["at_threshold"] = rng.choice([1, 3]) if rec["censor"] else 0
+    return rec
+
+
+def call_debiaser(deb, rec, a, b, c, times):
+    """the call form of a recipe: `apply_location(obs, cm_hist, cm_future, time_obs, time_cm_hist, time_cm_future)` (default) or
+    the public `apply` on a one-cell grid with the time arrays as keyword arguments; `None` entries of `times` are not passed"""
+    if rec.get("via") == "apply":
+        kw = {k: t for k, t in zip(("time_obs", "time_cm_hist", "time_cm_future"), times) if t is not None}
+        out = np.asarray(deb.apply(a[:, None, None], b[:, None, None], c[:, None, None], progressbar=False, **kw))
+        return out[:, 0, 0] if out.ndim == 3 and out.shape[1:] == (1, 1) else out
+    if all(t is None for t in times):
+        return deb.apply_location(a, b, c)
+    return deb.apply_location(a, b, c, *times)
+
+
 def build(rec):
     """-> dict(obs, F, dO, dF, extra) for a recipe"""
     nprs = np.random.RandomState(rec["np_seed"])
     dO, dF = whole_years(rec["y0"], rec["nyO"]), whole_years(rec["yF"], rec["nyF"])
+    if rec.get("timeless"):
+        # `nO` / `nF` consecutive days from any day of the year.  An axis that is NOT handed to the library starts on
+        # 1950-01-01 (`y0` = 1950, `offO` = 0): the harness needs these dates only for the data's annual cycle and for
+        # the NoClip guard of parametric QM, never for the verdict on the other debiasers
+        dO = dates_from(datetime.date(rec["y0"], 1, 1) + datetime.timedelta(days=int(rec["offO"])), int(rec["nO"]))
+        dF = dates_from(datetime.date(rec["yF"], 1, 1) + datetime.timedelta(days=int(rec["offF"])), int(rec["nF"]))
     if rec.get("year_gaps"):
         n, y0 = rec["nyF"], rec["yF"]
         ys = {"alternate": [y0 + 2 * k for k in range(n)], "decade": list(range(y0, y0 + n // 2)) + list(range(y0 + n // 2 + 10, y0 + n + 10)),
@@ -517,19 +593,24 @@ def run_case(rec):
     info = {"n_obs": int(obs.size), "n_fut": int(F.size), "skipped_clipped": 0, "tie_free": tie_free(obs, F)}
     # the same calendar days, each series in its own time encoding (python dates, datetimes, cftime-like objects, datetime64[D/h/s/ns])
     kO, kH, kF = rec.get("kinds", ["date", "date", "date"])
+    omit = list(rec.get("omit") or [False, False, False])  # timeless cases: which time arrays are NOT handed to the library
     with warnings.catch_warnings(), np.errstate(all="ignore"):
         warnings.simplefilter("ignore")
         if name.startswith("DC-"):
             # DeltaChange with an unchanged model (cm_future == cm_hist): returns obs.  `F` plays the model here.
             shown = [(dO, probes.present(dO, kO)), (dF, probes.present(dF, kH)), (dF, probes.present(dF, kF))]
-            out = deb.apply_location(obs, F, F.copy(), shown[0][1], shown[1][1], shown[2][1])
+            times = [None if om else sh for om, (_, sh) in zip(omit, shown)]
+            out = call_debiaser(deb, rec, obs, F, F.copy(), times)
             want, what = obs, "obs"
         else:
             shown = [(dO, probes.present(dO, kO)), (dO, probes.present(dO, kH)), (dF, probes.present(dF, kF))]
-            out = deb.apply_location(obs, obs.copy(), F, shown[0][1], shown[1][1], shown[2][1])
+            times = [None if om else sh for om, (_, sh) in zip(omit, shown)]
+            out = call_debiaser(deb, rec, obs, obs.copy(), F, times)
             want, what = F, "cm_future"
     cal = []
-    for d, sh in shown:
+    for (d, sh), om in zip(shown, omit):
+        if om:
+            continue
         probes.check_calendar(d, cal, what="calendar", presented=sh)
     if cal:  # reported (once per run) only when the property itself shows nothing on this input
         info["calendar"] = f"{cal[0][0]} (time encodings {rec.get('kinds')}, first date {dO[0]})"
@@ -538,7 +619,17 @@ def run_case(rec):
         keep = np.ones(want.size, dtype=bool)
         if name.startswith("QM-parametric") or name in ITER_FIT:
             # ITER_FIT: also skip the ill-conditioned upper tail (1 - cdf < 1e-5: ppf(cdf(x)) loses digits there)
-            clip, rt = qm_guard(deb, obs, F, dO, dF, upper_margin=1e-5 if name in ITER_FIT else 0.0)
+            gO, gF = dO, dF
+            if any(omit) and deb.running_window_mode:
+                # the NoClip guard is about the windows the library really forms: for an omitted time array take the dates
+                # the library's own inference assigns (a guard only — the verdict on the kept values never reads them)
+                try:
+                    from ibicus.utils._utils import infer_and_create_time_arrays_if_not_given as _infer
+
+                    gO, _, gF = _infer(obs, obs, F, *times)
+                except Exception:  # noqa: BLE001  (helper renamed / changed: fall back to the documented calendar)
+                    gO, gF = dO, dF
+            clip, rt = qm_guard(deb, obs, F, gO, gF, upper_margin=1e-5 if name in ITER_FIT else 0.0)
             keep = ~clip
             if name in ITER_FIT:
                 # scipy's cdf / ppf pair of a fitted beta / gamma is itself only accurate to ~1e-9 relative for some fitted
@@ -561,8 +652,12 @@ def run_case(rec):
         if rec.get("large"):
             how = f"large sample ({obs.size} values of obs, {F.size} of cm_future); " + how
         thin_axis = f", {rec['sparse']} future of {F.size} steps on a {rec.get('sampling') or 'daily'} axis" if rec.get("sparse") else ""
+        if rec.get("timeless"):
+            left_out = [a for a, om in zip(("time_obs", "time_cm_hist", "time_cm_future"), omit) if om]
+            thin_axis += (f", called through {rec.get('via')} WITHOUT {' / '.join(left_out)} (dates inferred by the library), "
+                          f"{obs.size} steps of obs and {F.size} of {'the model' if name.startswith('DC-') else 'cm_future'}")
         return (f"{name} (windows {mode}, year windows {ymode}, year gaps {rec.get('year_gaps')}, cdf_threshold {rec.get('t')}, time encodings "
-                f"{rec.get('kinds')}{thin_axis}): {how}with cm_hist == obs the output differs from {what} by {err[worst]:.3g} "
+                f"{rec.get('kinds')}{thin_axis}): {how}with {'cm_future == cm_hist' if what == 'obs' else 'cm_hist == obs'} the output differs from {what} by {err[worst]:.3g} "
                 f"at step {worst} ({out[worst]!r} vs {want[worst]!r}; tolerance {tw:.3g}); {int((excess > 0).sum())} of {want.size} steps differ"), info
     return None, info
 
@@ -797,7 +892,36 @@ def run(tier, res, force_search=False):
                       sample={k2: rec[k2] for k2 in ("config", "mode", "ymode", "nyO", "nyF")})
             if p:
                 problems.append((p, rec))
-    res.extra["oracle_large"] = {"cases": n_lg * len(ORACLE_CONFIGS + EXTRA_CONFIGS), "wall_s": round(_time.time() - t_lg, 2),
+    wall_lg = round(_time.time() - t_lg, 2)
+    # ... and WITHOUT time information in running-window / year-window mode (the dates are inferred by the library), through
+    # `apply_location` and the public `apply`, on series that are not whole years long: `gen_timeless_case` (own PRNG stream).
+    # DeltaChange (the clause "returns obs unchanged when cm_future equals cm_hist") occurs twice per round, so that every
+    # run holds a DeltaChange call whose model pair has no dates.
+    t_tl = _time.time()
+    rng_tl = random.Random(C.seed() * 7919 + 106)
+    n_tl = (2 if tier == "quick" else 6) * (3 if (force_search or not lean_ok or mism) else 1)
+    tl_names = TIMELESS_CONFIGS if tier == "quick" else ORACLE_CONFIGS + EXTRA_CONFIGS
+    n_timeless = 0
+    for r in range(n_tl):
+        for i, name in enumerate(list(tl_names) + ["DC-additive", "DC-multiplicative"]):
+            rec = gen_timeless_case(rng_tl, name, tier, r + C.seed() + (1 if i >= len(tl_names) else 0))
+            try:
+                p, info = run_case(rec)
+            except Exception as ex:  # noqa: BLE001  (an exception of the code under test is a violation carrying the recipe)
+                left_out = [a for a, om in zip(("time_obs", "time_cm_hist", "time_cm_future"), rec["omit"]) if om]
+                p, info = (f"{name} (windows {rec['mode']}, year windows {rec['ymode']}, called through {rec['via']} without {' / '.join(left_out)}, "
+                           f"{rec['nO']} / {rec['nF']} steps): {type(ex).__name__}: {str(ex)[:200]}"), {}
+            skipped += info.get("skipped_clipped", 0)
+            compared += info.get("n_fut", 0)
+            n_timeless += 1
+            res.count(("timeless", name, str(rec["mode"]), str(rec["ymode"]), str(rec["omit"]), rec["via"]), True,
+                      sample={k2: rec[k2] for k2 in ("config", "mode", "ymode", "omit", "via", "nO", "nF")})
+            if p:
+                problems.append((p, rec))
+    res.extra["oracle_timeless"] = {"cases": n_timeless, "wall_s": round(_time.time() - t_tl, 2),
+                                    "what": "running-window / year-window mode with time arrays omitted (inferred dates), via apply_location and apply, "
+                                            "400 - 1400 steps (not whole years), given axes starting on any day of the year"}
+    res.extra["oracle_large"] = {"cases": n_lg * len(ORACLE_CONFIGS + EXTRA_CONFIGS), "wall_s": wall_lg,
                                  "what": "every configuration with single fits of 5 000 - 22 000 values (14 - 60 years window-free, or 45 - 60 years in a 121 / 181 day window)"}
     res.extra["oracle_sparse"] = {"cases": n_sparse_run, "single_step_futures": one_value_chunks, "wall_s": round(_time.time() - t_sp, 2),
                                   "what": "thin time axes (monthly / dekad / weekly / pentad) and futures of 1-5 steps: chunks of cm_future down to ONE value"}
